@@ -99,18 +99,23 @@ def build_strings(ctx, tier, seed):
     for _ in range(n_valid):
         c = cdc.rand_circuit(ctx, rng, depth=rng.randint(0, 2))
         d = rng.choice([1, 3, 6, 12])
-        for text in (c.to_string(), c.to_string(d), c.serialize(d)):
+        pcts = cdc.apply_percent_limits(ctx, c, rng)
+        spelled = cdc.spell_circuit(ctx, c, rng, pcts)          # alternative spelling: bare-list sub-circuits, omitted fields, white space
+        for text in (c.to_string(), c.to_string(d), c.serialize(d), spelled):
             strings.append(text)
             strings += mutations(text, rng, 4 if tier == "quick" else 8)
-            # every prefix of a short code
-            if len(text) < 60:
+            # truncation at every prefix of a short code, at sampled positions of a long one
+            if len(text) < 80:
                 strings += [text[:i] for i in range(len(text))]
+            else:
+                strings += [text[:i] for i in rng.sample(range(len(text)), 25 if tier == "quick" else 60)]
     strings += ["(" * 2000, "[" * 1500 + "R", "Tlm{X_1=" * 400, "R-", "-", "!V=1e999!R", "!V=0.5!R", "!V=1.5!R", "!V=1F!R",
                 "!v=1!R", "!V=1!", "!", "!!", "![]", "!x![]", " [] ", "[ ]", "R{R=1e400}", "R{R=1e-400}", "R{R=1/1e400}",
                 "R{R=1:a}", "R{:a}", "R{R=1::}", "Tlm{X_1=R(RC)}", "R{R=10}Tlm{X_1=R{R=2}}", "(R{R=10}Tlm{X_1=R{R=2}C})",
                 "Tlm{X_1=[(RC)]}", "Tlm{X_1=short,X_2=open}", "Tlm{X_1=zero,X_2=inf}", "Tlm{X_1=R,X_1=C}", "Tlm{L=1,L=2}",
                 "R{R=1,}", "R{R=1,R=2}", "Q{Y=1,n=0.5,}", "R{R=5/10%/200%}", "R{R=5//200%}", "R{R=5/inf/inf}", "R{R=5/x}",
-                "C{C=1e5/1e4/1e6}", "C{C=1e5/1e4}", "R{R=1F/0/2}", "R{R=1f}", "R{R=1e}", "R{R=1.e5}", "R{R=1e+}", "R 1", "1", "R{R=1:a{b}c}"]
+                "C{C=1e5/1e4/1e6}", "C{C=1e5/1e4}", "Tlm{X_1=R", "Tlm{X_1=RC", "[R(RC)Tlm{X_1=RC", "Tlm{X_1=R{R=1}", "Tlm{X_1=[R", "Tlm{X_1=short",
+                "Tlm{X_1=", "Tlm{", "Tlm{X_1", "Tlm{X_1=R,", "Tlm{X_1=R:", "Tlm{X_1=R}", "Tlm{X_1=R,X_2=C", "Tlm{L=1", "Tlm{L=1,X_1=R", "R{R=1F/0/2}", "R{R=1f}", "R{R=1e}", "R{R=1.e5}", "R{R=1e+}", "R 1", "1", "R{R=1:a{b}c}"]
     return strings, n_exh
 
 
